@@ -265,7 +265,7 @@ def reuse_aliases(stmt):
     from vlib.props import C08
 
     s2 = C08.rename_per_scope(stmt, True)
-    if s2 == stmt or "other" in C08.alias_ambiguities(s2):
+    if s2 == stmt or C08.alias_ambiguities(s2):  # either kind: 'from_child' is usually resolved correctly on the pinned tree, not always (thorough tier)
         return None
     return s2
 
